@@ -555,10 +555,13 @@ def _flush(ctx, chk, rep, pending, enumerated):
         nontriv = account(ctx, ent, enumerated)
         if ent["failures"]:
             rep.report(ent)
-        elif nontriv and (not enumerated or
-                          G.size(ent["spec"]) >= 7):
-            ctx.sample({"tree": G.canon(ent["spec"]), "text": ent["text"],
-                        "valuations": len(ent["vals"])})
+        elif nontriv and (G.size(ent["spec"]) >= 9 if enumerated
+                          else len(ctx.samples) < 2):
+            # one enumerated tree, then Hypothesis trees
+            if not enumerated or not ctx.samples:
+                ctx.sample({"tree": G.canon(ent["spec"]),
+                            "text": ent["text"],
+                            "valuations_compared": len(ent["vals"])})
     del pending[:]
 
 
